@@ -596,7 +596,7 @@ class Arc(Term):
             * np.where(np.isnan(x), np.nan, 1.0)
             * np.where(
                 (left & (c <= x) & (x <= s)) | (right & (s <= x) & (x <= c)),
-                np.sqrt(r**2 - np.square(x - c)) / abs(r),
+                np.sqrt(np.maximum(0.0, r**2 - np.square(x - c))) / abs(r),
                 (left & (x < e)) | (right & (x > e)),
             )
         )
